@@ -3,7 +3,7 @@
 spec : spec/core/TgQueue.tla (model-checked), TgQueue_Trace.tla
 code : started XKNX with the real TelegramQueue / CEMIHandler and a fault-injecting interface under virtual time: mixes of
        incoming / outgoing / internal telegrams, send errors (CommunicationError, ConversionError, unexpected), slow sends,
-       missing confirmations, raising callbacks and device errors, rate limits 0 / 5 / 20; xknx.join() and stop must return.
+       missing confirmations, raising callbacks and device errors, rate limits 0 / 3 / 5 / 7 / 20 / 30 / 1500; xknx.join() and stop must return.
 """
 from __future__ import annotations
 
@@ -31,7 +31,7 @@ def run_hist(seed, n):
     from xknx.telegram.apci import GroupValueWrite
 
     rnd = random.Random(seed)
-    rate = rnd.choice([0, 5, 20])
+    rate = rnd.choice([0, 5, 20, 3, 7, 30, 1500])
     ev = []
     with virtual_world(seed) as loop:
         async def main():
@@ -45,7 +45,7 @@ def run_hist(seed, n):
             async def send_cemi(cemi):
                 tid_ = cemi.data.payload.value.value[0]
                 f = plan.get(tid_, "ok")
-                ev.append({"ev": "send_start", "id": tid_, "t": ms(loop.time()), "kind": ""})
+                ev.append({"ev": "send_start", "id": tid_, "t": ms(loop.time()), "tu": int(round(loop.time() * 1e6)), "kind": ""})
                 ok = 0
 
                 def con():
@@ -155,6 +155,7 @@ def run(ck):
             if t["rate"]:
                 b = {"rate": t["rate"], "ev": [dict(x) for x in t["ev"]]}
                 b["ev"][st[1]]["t"] = b["ev"][st[0]]["t"] + 1
+                b["ev"][st[1]]["tu"] = b["ev"][st[0]]["tu"] + min(1000, 900000 // t["rate"])
                 muts.append(b)
     r2 = tlc.batch(ck, "core/TgQueue_Trace", muts)
     if len(r2.bad) != len(muts) or not muts:
